@@ -13,7 +13,9 @@
 
 use crate::common::{Part, Tier};
 use bugstalker::debugger::address::RelocatedAddress;
-use bugstalker::debugger::verif_exports::{Breakpoint, StopReason, TraceContext, Tracer, WatchpointRegistry};
+use bugstalker::debugger::WatchpointView;
+use bugstalker::debugger::register::debug::{BreakCondition, BreakSize};
+use bugstalker::debugger::verif_exports::{Breakpoint, BreakpointRegistry, StopReason, TraceContext, Tracer, WatchpointHitType, WatchpointRegistry};
 use bugstalker::verif::{self, Kernel};
 use nix::errno::Errno;
 use nix::sys::signal::Signal;
@@ -32,6 +34,8 @@ pub enum Insn {
     Spawn(usize),
     /// write to data cell c
     Write(usize),
+    /// read data cell c
+    Read(usize),
     /// wait until every thread this thread spawned is gone
     Join,
     Exit(i32),
@@ -72,6 +76,8 @@ struct Thread {
     /// reported at the return to user mode, before any further instruction (seen on the real
     /// kernel: `stepi` over the clone syscall of the mt debuggee ends right behind it)
     trap_at_syscall_exit: bool,
+    /// false after PTRACE_DETACH: no more ptrace stops, signals take their default action
+    traced: bool,
 }
 
 pub const PID: i32 = 1000;
@@ -126,6 +132,7 @@ pub struct World {
     pub delivered: Vec<(i32, i32)>,
     pub log: Vec<String>,
     pub model_error: Option<String>,
+    /// (thread, debug register) of every data breakpoint the hardware took
     pub watch_hits: Vec<(i32, usize)>,
     /// environment signals still to be sent: (signal, index into the live thread list)
     pub env_signals: Vec<(i32, usize)>,
@@ -143,6 +150,8 @@ pub struct World {
     /// ptrace(2) allows siblings killed by exit_group to vanish without PTRACE_EVENT_EXIT; the
     /// kernel of this sandbox always reports it (litmus l2, l2b, l3)
     pub silent_exit: bool,
+    /// the process died of a signal's default action (only possible for untraced threads)
+    pub killed_by: Option<i32>,
 }
 
 impl World {
@@ -171,6 +180,7 @@ impl World {
             parent: None,
             exit_code: 0,
             trap_at_syscall_exit: false,
+            traced: true,
         };
         World {
             orig_text: text.clone(),
@@ -194,6 +204,7 @@ impl World {
             group_exit: false,
             event_stop_sig: 19,
             silent_exit: false,
+            killed_by: None,
         }
     }
 
@@ -245,11 +256,40 @@ impl World {
         self.threads.iter().filter(|t| matches!(t.state, TState::Running | TState::Stopped { .. })).map(|t| t.tid).collect()
     }
 
+    pub fn text_is_original(&self) -> bool {
+        self.text == self.orig_text
+    }
+
     pub fn any_running(&self) -> Vec<i32> {
         self.threads.iter().filter(|t| t.state == TState::Running).map(|t| t.tid).collect()
     }
 
     fn stop(&mut self, tid: i32, stop: Stop) {
+        if self.thr(tid).map(|t| !t.traced).unwrap_or(false) {
+            // nobody traces this thread: a SIGTRAP kills the process, other signals run their
+            // handlers, events are not reported
+            match stop {
+                Stop::Signal { sig, .. } if sig == SIGTRAP => {
+                    self.killed_by = Some(SIGTRAP);
+                    for t in self.threads.iter_mut() {
+                        t.state = TState::Gone;
+                    }
+                }
+                Stop::Signal { sig, .. } => {
+                    self.delivered.push((tid, sig));
+                    if let Some(r) = self.sigs.iter_mut().rev().find(|r| r.tid == tid && r.sig == sig) {
+                        r.delivered += 1;
+                    }
+                }
+                Stop::Event { ev, msg } if ev == EV_EXIT => {
+                    if let Some(t) = self.th(tid) {
+                        t.state = if tid == PID { TState::Zombie { code: msg as i32 } } else { TState::Gone };
+                    }
+                }
+                Stop::Event { .. } => {}
+            }
+            return;
+        }
         if let Some(t) = self.th(tid) {
             // ptrace_stop(): "any trap clears pending STOP trap"
             t.trap_stop_pending = false;
@@ -329,22 +369,35 @@ impl World {
         let mut stopped = false;
         match insn {
             Insn::Nop | Insn::Join => {}
-            Insn::Write(c) => {
-                self.cells[c] += 1;
-                let addr = CELL_BASE + 8 * c as u64;
+            Insn::Write(c) | Insn::Read(c) => {
+                let is_write = matches!(insn, Insn::Write(_));
+                if is_write {
+                    self.cells[c] += 1;
+                }
+                let (lo, hi) = (CELL_BASE + 8 * c as u64, CELL_BASE + 8 * c as u64 + 8);
                 let t = self.th(tid).unwrap();
                 let dr7 = t.dr[7];
-                let mut hit = false;
+                let mut hit = vec![];
                 for n in 0..4 {
                     let enabled = dr7 >> (2 * n) & 3 != 0;
                     let rw = dr7 >> (16 + 4 * n) & 3;
-                    if enabled && (rw == 1 || rw == 3) && t.dr[n] == addr {
+                    let len = match dr7 >> (18 + 4 * n) & 3 {
+                        0 => 1,
+                        1 => 2,
+                        3 => 4,
+                        _ => 8,
+                    };
+                    let a = t.dr[n];
+                    let overlaps = a < hi && a + len > lo;
+                    if enabled && overlaps && (rw == 3 || (rw == 1 && is_write)) {
                         t.dr[6] |= 1 << n;
-                        hit = true;
+                        hit.push(n);
                     }
                 }
-                if hit {
-                    self.watch_hits.push((tid, c));
+                if !hit.is_empty() {
+                    for n in hit {
+                        self.watch_hits.push((tid, n));
+                    }
                     self.fault(tid, TRAP_HWBKPT, slipped);
                     stopped = true;
                 }
@@ -365,7 +418,7 @@ impl World {
                     tid: child,
                     prog: p,
                     rip: prog_base(p),
-                    state: TState::Stopped { stop: Stop::Event { ev: EV_STOP, msg: 0 }, reported: false },
+                    state: if self.thr(tid).map(|t| t.traced).unwrap_or(true) { TState::Stopped { stop: Stop::Event { ev: EV_STOP, msg: 0 }, reported: false } } else { TState::Running },
                     pending: vec![],
                     trap_stop_pending: false,
                     slips: 0,
@@ -375,6 +428,7 @@ impl World {
                     parent: Some(tid),
                     exit_code: 0,
                     trap_at_syscall_exit: false,
+                    traced: self.thr(tid).map(|t| t.traced).unwrap_or(true),
                 });
                 self.stop(tid, Stop::Event { ev: EV_CLONE, msg: child as u64 });
                 stopped = true;
@@ -560,6 +614,27 @@ impl World {
         }
     }
 
+    /// No tracer any more: let everything that can run run to the end.
+    pub fn run_free(&mut self) {
+        for _ in 0..2000 {
+            let r = self.runnable();
+            if r.is_empty() || self.killed_by.is_some() {
+                break;
+            }
+            for tid in r {
+                self.step_thread(tid);
+            }
+            // a zombie leader is reaped by its real parent once it is alone
+            if self.threads.iter().all(|t| t.tid == PID || t.state == TState::Gone) {
+                if let Some(t) = self.th(PID) {
+                    if matches!(t.state, TState::Zombie { .. }) {
+                        t.state = TState::Gone;
+                    }
+                }
+            }
+        }
+    }
+
     fn stopped(&self, tid: i32) -> bool {
         matches!(self.thr(tid).map(|t| &t.state), Some(TState::Stopped { .. }))
     }
@@ -652,9 +727,18 @@ impl Kernel for SimKernel {
     }
     fn detach(&mut self, pid: Pid, _sig: Option<Signal>) -> nix::Result<()> {
         let mut w = self.0.borrow_mut();
+        w.sched_point("before-detach");
+        w.log.push(format!("detach({pid})"));
         match w.th(pid.as_raw()) {
-            Some(t) if matches!(t.state, TState::Stopped { .. }) => {
-                t.state = TState::Running;
+            Some(t) if matches!(t.state, TState::Stopped { .. }) && t.traced => {
+                if matches!(t.state, TState::Stopped { stop: Stop::Event { ev, .. }, .. } if ev == EV_EXIT) {
+                    t.state = TState::Zombie { code: t.exit_code };
+                } else {
+                    t.state = TState::Running;
+                }
+                t.traced = false;
+                t.trap_stop_pending = false;
+                t.tf = false;
                 Ok(())
             }
             _ => Err(Errno::ESRCH),
@@ -760,8 +844,34 @@ impl Kernel for SimKernel {
         let mut w = self.0.borrow_mut();
         let base = std::mem::offset_of!(libc::user, u_debugreg);
         let n = (offset.wrapping_sub(base)) / 8;
+        let len_of = |dr7: u64, n: usize| -> u64 {
+            match dr7 >> (18 + 4 * n) & 3 {
+                0 => 1,
+                1 => 2,
+                3 => 4,
+                _ => 8,
+            }
+        };
         match w.th(pid.as_raw()) {
             Some(t) if matches!(t.state, TState::Stopped { .. }) && n < 8 => {
+                // the kernel re-validates the breakpoint of a slot whenever its address or DR7
+                // changes: an enabled slot needs an address aligned to its length (litmus l3)
+                if n < 4 {
+                    let enabled = t.dr[7] >> (2 * n) & 3 != 0;
+                    if enabled && data as u64 % len_of(t.dr[7], n) != 0 {
+                        return Err(Errno::EINVAL);
+                    }
+                } else if n == 7 {
+                    for k in 0..4 {
+                        let enabled = data as u64 >> (2 * k) & 3 != 0;
+                        if enabled && t.dr[k] % len_of(data as u64, k) != 0 {
+                            return Err(Errno::EINVAL);
+                        }
+                    }
+                }
+                if n == 4 || n == 5 {
+                    return Err(Errno::EIO);
+                }
                 t.dr[n] = data as u64;
                 Ok(())
             }
@@ -796,9 +906,21 @@ pub struct Scenario {
     pub policy: u8,
     /// number of `stepi` commands the user issues after every reported stop before `continue`
     pub stepi_after_stop: u32,
+    /// the user detaches at this reported stop (1 = the first)
+    pub detach_at: Option<usize>,
+    /// watchpoint commands: (index of the reported stop at which the user issues it; 0 = before the
+    /// first resume, operation)
+    pub watch_ops: Vec<(usize, WOp)>,
     /// true: the process was attached to, PTRACE_EVENT_STOP carries SIGTRAP
     pub attached: bool,
     pub silent_exit: bool,
+}
+
+#[derive(Clone, Debug, PartialEq, serde::Serialize, serde::Deserialize)]
+pub enum WOp {
+    /// watch cell c: byte offset inside the cell, size in bytes, read-write (else write only)
+    Add { cell: usize, off: u64, size: u8, rw: bool },
+    Remove { cell: usize, off: u64 },
 }
 
 struct Bp {
@@ -864,7 +986,11 @@ pub fn run(sc: &Scenario, prefix: &[usize]) -> Outcome {
 fn drive(sc: &Scenario, world: &Rc<RefCell<World>>, out: &mut Outcome) {
     let pid = Pid::from_raw(PID);
     let mut tracer = Tracer::new(pid);
-    let wps = WatchpointRegistry::default();
+    let mut wps = WatchpointRegistry::default();
+    let mut bp_registry = BreakpointRegistry::default();
+    let mut reported_w: Vec<(i32, usize)> = vec![];
+    let mut stops_seen = 0usize;
+    apply_watch_ops(sc, 0, &mut wps, &mut bp_registry, &tracer, world, out);
     let mut bps: Vec<Bp> = sc.bps.iter().map(|a| Bp { bp: Breakpoint::new("/sim", RelocatedAddress::from(*a), pid, None), enabled: false, temporary: false }).collect();
     for b in bps.iter_mut() {
         if let Err(e) = b.bp.enable() {
@@ -879,6 +1005,7 @@ fn drive(sc: &Scenario, world: &Rc<RefCell<World>>, out: &mut Outcome) {
     let mut temp_armed = false;
     let mut temp_done = sc.temp_bp.is_none();
     let mut stepi_left = 0u32;
+    let mut detached = false;
     let mut guard = 0;
     let mut err: Option<String> = None;
     'outer: loop {
@@ -1042,13 +1169,46 @@ fn drive(sc: &Scenario, world: &Rc<RefCell<World>>, out: &mut Outcome) {
                 err = Some("tracer reported NoSuchProcess".into());
                 break;
             }
-            other => {
-                out.stops.push(format!("{other:?}"));
-                if let StopReason::Watchpoint(t, _, _) = other {
-                    focus = t;
+            StopReason::Watchpoint(t, _, ty) => {
+                focus = t;
+                match ty {
+                    WatchpointHitType::DebugRegister(r) => {
+                        out.stops.push(format!("watchpoint {t} dr{}", r as usize));
+                        reported_w.push((t.as_raw(), r as usize));
+                    }
+                    WatchpointHitType::EndOfScope(_) => out.stops.push(format!("watchpoint-scope-end {t}")),
                 }
                 check_all_stop(world, &tracer, out, &bps, "watchpoint");
             }
+            StopReason::DebugeeStart => out.stops.push("start".into()),
+        }
+        stops_seen += 1;
+        if sc.detach_at == Some(stops_seen) && !world.borrow().group_exit {
+            // ---- Debugger::detach ----
+            for b in bps.iter_mut().filter(|b| b.enabled) {
+                let _ = b.bp.disable(); // disable_all_breakpoints ignores errors
+                b.enabled = false;
+            }
+            wps.clear_all(tracer.verif_tracee_ctl(), &mut bp_registry);
+            // (the debugger walks a hash map; both extreme orders are scenarios)
+            let mut tids: Vec<Pid> = tracer.verif_tracee_ctl().tracee_iter().map(|t| t.pid).collect();
+            tids.sort();
+            if sc.policy == 1 {
+                tids.reverse();
+            }
+            for t in tids {
+                if let Err(e) = verif::sys::ptrace::detach(t, None) {
+                    if world.borrow().killed_by.is_none() {
+                        err = Some(format!("detach({t}): {e}"));
+                    }
+                }
+            }
+            detached = true;
+            break;
+        }
+        if !sc.watch_ops.is_empty() {
+            apply_watch_ops(sc, stops_seen, &mut wps, &mut bp_registry, &tracer, world, out);
+            check_dregs(world, &wps, out, "stop");
         }
         if !do_stepi {
             stepi_left = sc.stepi_after_stop;
@@ -1057,6 +1217,40 @@ fn drive(sc: &Scenario, world: &Rc<RefCell<World>>, out: &mut Outcome) {
         if world.borrow().epoch != epoch_at_report {
             out.violations.push(("MACHINERY:world-moved-outside-kernel-call".into(), String::new()));
         }
+    }
+    if detached && world.borrow().model_error.is_none() {
+        world.borrow_mut().run_free();
+        let w = world.borrow();
+        if let Some(e) = err {
+            out.violations.push(("C11:sim:detach-failed".into(), e));
+        }
+        if let Some(sig) = w.killed_by {
+            out.violations.push(("C11:sim:process-killed-by-pending-trap-after-detach".into(), format!("signal {sig}: a breakpoint trap that the tracer had not consumed was delivered to the released process; log tail {:?}", w.log.iter().rev().take(8).collect::<Vec<_>>())));
+            return;
+        }
+        let traced: Vec<_> = w.threads.iter().filter(|t| t.traced && !matches!(t.state, TState::Gone | TState::Zombie { .. })).map(|t| (t.tid, format!("{:?}", t.state))).collect();
+        if !traced.is_empty() {
+            out.violations.push(("C11:sim:thread-still-traced-after-detach".into(), format!("{traced:?}")));
+        }
+        if !w.text_is_original() {
+            out.violations.push(("C11:sim:code-patched-after-detach".into(), String::new()));
+        }
+        if let Some(t) = w.threads.iter().find(|t| !matches!(t.state, TState::Gone | TState::Zombie { .. }) && t.dr[7] & 0xff != 0) {
+            out.violations.push(("C11:sim:hardware-breakpoint-left-after-detach".into(), format!("thread {} dr7 {:#x}", t.tid, t.dr[7])));
+        }
+        let unfinished: Vec<_> = w.threads.iter().filter(|t| !matches!(t.state, TState::Gone | TState::Zombie { .. })).map(|t| (t.tid, format!("{:?}", t.state))).collect();
+        if traced.is_empty() && !unfinished.is_empty() {
+            out.violations.push(("C11:sim:released-process-does-not-finish".into(), format!("{unfinished:?}")));
+        }
+        for (tid, ex) in w.threads.iter().map(|t| (t.tid, &t.executed)) {
+            if ex.iter().any(|n| *n > 1) {
+                out.violations.push(("C11:sim:instruction-executed-twice-around-detach".into(), format!("thread {tid}: {ex:?}")));
+            }
+            if ex.last().copied().unwrap_or(0) > 0 && ex.iter().any(|n| *n == 0) {
+                out.violations.push(("C11:sim:instruction-skipped-around-detach".into(), format!("thread {tid}: {ex:?}")));
+            }
+        }
+        return;
     }
     let w = world.borrow();
     if w.model_error.is_some() {
@@ -1090,6 +1284,18 @@ fn drive(sc: &Scenario, world: &Rc<RefCell<World>>, out: &mut Outcome) {
                 let sig = if sc.temp_bp.is_some() { "C09:sim:arrival-not-reported-while-temporary-breakpoint" } else { "C09:sim:arrival-not-reported" };
                 out.violations.push((sig.into(), format!("thread {} ran through the breakpoint at {addr:#x} without a report", t.tid)));
             }
+        }
+    }
+    // data breakpoints (C14): every hit the hardware took is reported once
+    if !sc.watch_ops.is_empty() && !w.group_exit {
+        let mut hw = w.watch_hits.clone();
+        hw.sort();
+        let mut rep = reported_w.clone();
+        rep.sort();
+        if hw != rep {
+            let missing: Vec<_> = hw.iter().filter(|h| hw.iter().filter(|x| x == h).count() > rep.iter().filter(|x| x == h).count()).collect();
+            let kind = if !missing.is_empty() { "C14:sim:watchpoint-hit-not-reported" } else { "C14:sim:watchpoint-reported-without-hit" };
+            out.violations.push((kind.into(), format!("hardware hits (thread, register) {hw:?}, reported {rep:?}; stops {:?}", out.stops)));
         }
     }
     // signals (C10): every signal sent is delivered exactly once (SIGINT: never) and, unless quiet,
@@ -1145,6 +1351,102 @@ fn drive(sc: &Scenario, world: &Rc<RefCell<World>>, out: &mut Outcome) {
         }
         if !tracer.verif_inject_queue().is_empty() {
             out.violations.push(("C10:sim:inject-queue-not-empty-at-exit".into(), format!("{:?}", tracer.verif_inject_queue())));
+        }
+    }
+}
+
+fn apply_watch_ops(sc: &Scenario, at: usize, wps: &mut WatchpointRegistry, bpr: &mut BreakpointRegistry, tracer: &Tracer, world: &Rc<RefCell<World>>, out: &mut Outcome) {
+    for (k, op) in &sc.watch_ops {
+        if *k != at {
+            continue;
+        }
+        if world.borrow().group_exit || world.borrow().live_tids().is_empty() {
+            return;
+        }
+        let before: Vec<(i32, [u64; 8])> = world.borrow().threads.iter().filter(|t| matches!(t.state, TState::Stopped { .. })).map(|t| (t.tid, t.dr)).collect();
+        match op {
+            WOp::Add { cell, off, size, rw } => {
+                let addr = RelocatedAddress::from(CELL_BASE + 8 * *cell as u64 + off);
+                let sz = match size {
+                    1 => BreakSize::Bytes1,
+                    2 => BreakSize::Bytes2,
+                    4 => BreakSize::Bytes4,
+                    _ => BreakSize::Bytes8,
+                };
+                let cond = if *rw { BreakCondition::DataReadsWrites } else { BreakCondition::DataWrites };
+                let n_before = wps.all().len();
+                let dup = wps.all().iter().any(|w| WatchpointView::from(w).address == addr);
+                match wps.verif_add_raw(tracer.verif_tracee_ctl(), addr, sz, cond) {
+                    Ok(_) => {
+                        if n_before >= 4 || dup {
+                            out.violations.push(("C14:sim:fifth-or-duplicate-watchpoint-accepted".into(), format!("{op:?} accepted with {n_before} watchpoints set (duplicate: {dup})")));
+                        }
+                    }
+                    Err(e) => {
+                        let after: Vec<(i32, [u64; 8])> = world.borrow().threads.iter().filter(|t| matches!(t.state, TState::Stopped { .. })).map(|t| (t.tid, t.dr)).collect();
+                        if n_before < 4 && !dup {
+                            out.violations.push(("C14:sim:watchpoint-refused".into(), format!("{op:?}: {e}")));
+                        } else if after != before || wps.all().len() != n_before {
+                            out.violations.push(("C14:sim:refused-watchpoint-had-side-effects".into(), format!("{op:?}: {e}; registers before {before:x?} after {after:x?}")));
+                        }
+                    }
+                }
+            }
+            WOp::Remove { cell, off } => {
+                let addr = RelocatedAddress::from(CELL_BASE + 8 * *cell as u64 + off);
+                let had = wps.all().iter().any(|w| WatchpointView::from(w).address == addr);
+                match wps.verif_remove_by_addr(tracer.verif_tracee_ctl(), bpr, addr) {
+                    Ok(r) if r == had => {}
+                    Ok(r) => out.violations.push(("C14:sim:remove-answer-wrong".into(), format!("{op:?}: removed={r}, was set={had}"))),
+                    Err(e) => out.violations.push(("C14:sim:remove-failed".into(), format!("{op:?}: {e}"))),
+                }
+            }
+        }
+    }
+}
+
+/// Every stopped thread's debug registers encode exactly the registry's watchpoints.
+fn check_dregs(world: &Rc<RefCell<World>>, wps: &WatchpointRegistry, out: &mut Outcome, at: &str) {
+    let w = world.borrow();
+    if w.group_exit {
+        return;
+    }
+    let mut want: [Option<(u64, u64, u64)>; 4] = [None; 4];
+    for wp in wps.all() {
+        let v = WatchpointView::from(wp);
+        let Some(r) = wp.register() else {
+            out.violations.push((format!("C14:sim:watchpoint-without-register-at-{at}"), format!("#{}", v.number)));
+            continue;
+        };
+        let len = match v.size {
+            BreakSize::Bytes1 => 0,
+            BreakSize::Bytes2 => 1,
+            BreakSize::Bytes8 => 2,
+            BreakSize::Bytes4 => 3,
+        };
+        let rw = match v.condition {
+            BreakCondition::DataWrites => 1,
+            BreakCondition::DataReadsWrites => 3,
+        };
+        if want[r as usize].is_some() {
+            out.violations.push((format!("C14:sim:two-watchpoints-share-a-register-at-{at}"), format!("dr{}", r as usize)));
+        }
+        want[r as usize] = Some((v.address.as_u64(), len, rw));
+    }
+    for t in w.threads.iter().filter(|t| matches!(t.state, TState::Stopped { .. } | TState::Running)) {
+        if matches!(t.state, TState::Stopped { stop: Stop::Event { ev, .. }, .. } if ev == EV_EXIT) {
+            continue;
+        }
+        for n in 0..4 {
+            let enabled = t.dr[7] >> (2 * n) & 3 != 0;
+            let ok = match want[n] {
+                None => !enabled,
+                Some((a, len, rw)) => enabled && t.dr[n] == a && (t.dr[7] >> (18 + 4 * n) & 3) == len && (t.dr[7] >> (16 + 4 * n) & 3) == rw,
+            };
+            if !ok {
+                out.violations.push((format!("C14:sim:debug-registers-differ-at-{at}"), format!("thread {} slot {n}: dr{n}={:#x} dr7={:#x}, registry wants {:x?} (addr, len code, rw code)", t.tid, t.dr[n], t.dr[7], want[n])));
+                return;
+            }
         }
     }
 }
@@ -1277,7 +1579,7 @@ pub fn explore(sc: &Scenario, bound: usize, max_exec: u64, threads: usize) -> Ex
 
 pub fn scenario_to_json(sc: &Scenario) -> Value {
     let progs: Vec<Vec<String>> = sc.progs.iter().map(|p| p.iter().map(|i| format!("{i:?}")).collect()).collect();
-    json!({"name": sc.name, "progs": progs, "bps": sc.bps, "temp_bp": sc.temp_bp, "env_signals": sc.env_signals, "step_code": sc.step_code, "policy": sc.policy, "attached": sc.attached, "silent_exit": sc.silent_exit, "stepi_after_stop": sc.stepi_after_stop})
+    json!({"name": sc.name, "progs": progs, "bps": sc.bps, "temp_bp": sc.temp_bp, "env_signals": sc.env_signals, "step_code": sc.step_code, "policy": sc.policy, "attached": sc.attached, "silent_exit": sc.silent_exit, "stepi_after_stop": sc.stepi_after_stop, "watch_ops": sc.watch_ops, "detach_at": sc.detach_at})
 }
 
 pub fn scenario_from_json(v: &Value) -> Scenario {
@@ -1287,6 +1589,8 @@ pub fn scenario_from_json(v: &Value) -> Scenario {
             Insn::Spawn(num(s) as usize)
         } else if s.starts_with("Write") {
             Insn::Write(num(s) as usize)
+        } else if s.starts_with("Read") {
+            Insn::Read(num(s) as usize)
         } else if s.starts_with("ExitGroup") {
             Insn::ExitGroup(num(s) as i32)
         } else if s.starts_with("Exit") {
@@ -1306,6 +1610,8 @@ pub fn scenario_from_json(v: &Value) -> Scenario {
         step_code: v["step_code"].as_i64().unwrap_or(1) as i32,
         policy: v["policy"].as_u64().unwrap_or(0) as u8,
         stepi_after_stop: v["stepi_after_stop"].as_u64().unwrap_or(0) as u32,
+        watch_ops: serde_json::from_value(v["watch_ops"].clone()).unwrap_or_default(),
+        detach_at: v["detach_at"].as_u64().map(|x| x as usize),
         attached: v["attached"].as_bool().unwrap_or(false),
         silent_exit: v["silent_exit"].as_bool().unwrap_or(false),
     }
@@ -1336,7 +1642,7 @@ pub fn scenarios_c09(tier: Tier) -> Vec<Scenario> {
     let w = |n: usize| prog_base(1) + n as u64;
     let m = |n: usize| prog_base(0) + n as u64;
     let mut v = vec![];
-    let mk = |name: &str, progs: Vec<Vec<Insn>>, bps: Vec<u64>, temp: Option<u64>| Scenario { name: name.into(), progs, bps, temp_bp: temp, env_signals: vec![], step_code: 1, policy: 0, stepi_after_stop: 0, attached: false, silent_exit: false };
+    let mk = |name: &str, progs: Vec<Vec<Insn>>, bps: Vec<u64>, temp: Option<u64>| Scenario { name: name.into(), progs, bps, temp_bp: temp, env_signals: vec![], step_code: 1, policy: 0, stepi_after_stop: 0, watch_ops: vec![], detach_at: None, attached: false, silent_exit: false };
     // two workers race to one breakpoint while main waits
     v.push(mk("two-workers-one-bp", vec![vec![Spawn(1), Spawn(1), Join, Exit(0)], vec![Nop, Nop, Nop, Exit(0)]], vec![w(1)], None));
     // main and a worker hit different breakpoints; creation races with the stop
@@ -1397,9 +1703,9 @@ pub fn scenarios_temp(_tier: Tier) -> Vec<Scenario> {
     let m = |n: usize| prog_base(0) + n as u64;
     let base = vec![
         // main stops at m1, then "finish"es to m3 while a worker arrives at its user breakpoint
-        Scenario { name: "temp-bp-vs-worker-bp".into(), progs: vec![vec![Spawn(1), Nop, Nop, Nop, Join, Exit(0)], vec![Nop, Nop, Nop, Exit(0)]], bps: vec![m(1), w(1)], temp_bp: Some(m(3)), env_signals: vec![], step_code: 1, policy: 0, stepi_after_stop: 0, attached: false, silent_exit: false },
+        Scenario { name: "temp-bp-vs-worker-bp".into(), progs: vec![vec![Spawn(1), Nop, Nop, Nop, Join, Exit(0)], vec![Nop, Nop, Nop, Exit(0)]], bps: vec![m(1), w(1)], temp_bp: Some(m(3)), env_signals: vec![], step_code: 1, policy: 0, stepi_after_stop: 0, watch_ops: vec![], detach_at: None, attached: false, silent_exit: false },
         // the temporary breakpoint sits in code that the other thread runs too
-        Scenario { name: "temp-bp-in-shared-code".into(), progs: vec![vec![Spawn(1), Spawn(1), Join, Exit(0)], vec![Nop, Nop, Nop, Nop, Exit(0)]], bps: vec![w(1)], temp_bp: Some(w(3)), env_signals: vec![], step_code: 1, policy: 0, stepi_after_stop: 0, attached: false, silent_exit: false },
+        Scenario { name: "temp-bp-in-shared-code".into(), progs: vec![vec![Spawn(1), Spawn(1), Join, Exit(0)], vec![Nop, Nop, Nop, Nop, Exit(0)]], bps: vec![w(1)], temp_bp: Some(w(3)), env_signals: vec![], step_code: 1, policy: 0, stepi_after_stop: 0, watch_ops: vec![], detach_at: None, attached: false, silent_exit: false },
     ];
     let mut v = base.clone();
     for s in &base {
@@ -1417,7 +1723,7 @@ pub fn scenarios_c10(tier: Tier) -> Vec<Scenario> {
     let mut v = vec![];
     let progs2 = vec![vec![Spawn(1), Nop, Nop, Join, Exit(0)], vec![Nop, Nop, Nop, Exit(0)]];
     let single = vec![vec![Nop, Nop, Nop, Nop, Exit(0)]];
-    let mk = |name: &str, progs: &Vec<Vec<Insn>>, bps: Vec<u64>, sigs: Vec<(i32, usize)>| Scenario { name: name.into(), progs: progs.clone(), bps, temp_bp: None, env_signals: sigs, step_code: 1, policy: 0, stepi_after_stop: 0, attached: false, silent_exit: false };
+    let mk = |name: &str, progs: &Vec<Vec<Insn>>, bps: Vec<u64>, sigs: Vec<(i32, usize)>| Scenario { name: name.into(), progs: progs.clone(), bps, temp_bp: None, env_signals: sigs, step_code: 1, policy: 0, stepi_after_stop: 0, watch_ops: vec![], detach_at: None, attached: false, silent_exit: false };
     // SIGUSR1 = 10, SIGUSR2 = 12, SIGALRM = 14 (quiet), SIGINT = 2 (transparent)
     v.push(mk("one-thread-usr1-at-bp", &single, vec![m(1)], vec![(10, 0)]));
     v.push(mk("one-thread-burst", &single, vec![m(2)], vec![(10, 0), (12, 0)]));
@@ -1440,6 +1746,13 @@ pub fn scenarios_c10(tier: Tier) -> Vec<Scenario> {
 }
 
 fn run_part(name: &str, rule: &str, scenarios: Vec<Scenario>, bound: usize, cap: u64, keep: &dyn Fn(&str) -> bool) -> Part {
+    // liveness / crash verdicts of the tracer belong to the property whose check runs
+    let prop = match name {
+        "c10_sim" => "C10",
+        "c14_sim" => "C14",
+        "c11_sim" => "C11",
+        _ => "C09",
+    };
     let mut part = Part::new(name);
     part.rule = rule.to_string();
     let bound = std::env::var("BSMC_SIM_BOUND").ok().and_then(|s| s.parse().ok()).unwrap_or(bound);
@@ -1469,6 +1782,7 @@ fn run_part(name: &str, rule: &str, scenarios: Vec<Scenario>, bound: usize, cap:
             if !keep(&sig) {
                 continue;
             }
+            let sig = if sig.starts_with("C09:sim:tracer-") && prop != "C09" { format!("{prop}{}", &sig[3..]) } else { sig };
             part.violate(sig.clone(), format!("[{}] {detail}", sc.name), json!({"engine": "simk", "scenario": scenario_to_json(sc), "choices": choices, "signature": sig}));
         }
     }
@@ -1503,4 +1817,90 @@ pub fn part_c10_sim(tier: Tier) -> Part {
     };
     let rule = "real Tracer over the simulated kernel with external signals landing at any kernel call: each sent signal delivered to its thread exactly once (SIGINT never), reported unless quiet, inject queue empty at exit";
     run_part("c10_sim", rule, scenarios_c10(tier), bound, cap, &|s| s.starts_with("C10") || s.starts_with("MACHINERY") || s.contains("tracer-panic") || s.contains("tracer-error") || s.contains("waits-forever"))
+}
+
+pub fn scenarios_c14(tier: Tier) -> Vec<Scenario> {
+    let w = |n: usize| prog_base(1) + n as u64;
+    let m = |n: usize| prog_base(0) + n as u64;
+    let add = |cell: usize, size: u8, rw: bool| WOp::Add { cell, off: 0, size, rw };
+    let mk = |name: &str, progs: Vec<Vec<Insn>>, bps: Vec<u64>, ops: Vec<(usize, WOp)>| Scenario { name: name.into(), progs, bps, temp_bp: None, env_signals: vec![], step_code: 1, policy: 0, stepi_after_stop: 0, watch_ops: ops, detach_at: None, attached: false, silent_exit: false };
+    let mut v = vec![];
+    // watch set before the threads exist; both workers write the cell
+    v.push(mk("watch-then-two-writers", vec![vec![Spawn(1), Spawn(1), Join, Exit(0)], vec![Nop, Write(0), Nop, Exit(0)]], vec![], vec![(0, add(0, 8, false))]));
+    // main and a worker write different watched cells; a third cell is only read (write watch: no hit; rw watch: hit)
+    v.push(mk("two-cells-read-and-write", vec![vec![Spawn(1), Write(1), Read(2), Join, Exit(0)], vec![Write(0), Read(1), Write(2), Exit(0)]], vec![], vec![(0, add(0, 8, false)), (0, add(1, 4, true)), (0, add(2, 2, false))]));
+    // watch set at a breakpoint stop while a worker already runs, removed at the next stop
+    v.push(mk("watch-at-stop-remove-later", vec![vec![Spawn(1), Nop, Write(0), Nop, Write(0), Join, Exit(0)], vec![Nop, Write(0), Nop, Write(1), Exit(0)]], vec![m(1)], vec![(1, add(0, 8, false)), (1, add(1, 8, false)), (2, WOp::Remove { cell: 0, off: 0 })]));
+    // slot reuse with a smaller, differently aligned watchpoint; fifth and duplicate refused
+    v.push(mk(
+        "slot-reuse-and-limits",
+        vec![vec![Nop, Nop, Write(0), Spawn(1), Write(3), Join, Exit(0)], vec![Write(1), Write(0), Exit(0)]],
+        vec![m(1)],
+        vec![(0, add(0, 8, false)), (0, add(1, 8, true)), (0, add(2, 4, false)), (0, add(3, 1, false)), (0, add(4, 8, false)), (0, add(1, 2, false)), (1, WOp::Remove { cell: 0, off: 0 }), (1, WOp::Add { cell: 0, off: 4, size: 4, rw: false })],
+    ));
+    // a thread is created while watchpoints change at stops
+    v.push(mk("threads-created-between-changes", vec![vec![Spawn(1), Nop, Spawn(1), Write(0), Join, Exit(0)], vec![Nop, Write(0), Write(1), Exit(0)]], vec![m(1), w(0)], vec![(1, add(0, 8, false)), (2, add(1, 8, true)), (3, WOp::Remove { cell: 0, off: 0 })]));
+    if tier == Tier::Thorough {
+        v.push(mk("three-writers", vec![vec![Spawn(1), Spawn(1), Spawn(1), Join, Exit(0)], vec![Write(0), Write(0), Exit(0)]], vec![], vec![(0, add(0, 8, false))]));
+        v.push(mk("watch-and-breakpoint-adjacent", vec![vec![Spawn(1), Write(0), Nop, Join, Exit(0)], vec![Write(0), Nop, Nop, Exit(0)]], vec![m(2), w(1)], vec![(0, add(0, 8, false))]));
+    }
+    let base = v.clone();
+    for s in &base {
+        let mut t = s.clone();
+        t.policy = 1;
+        t.name = format!("{}/highest-first", s.name);
+        v.push(t);
+    }
+    v
+}
+
+pub fn part_c14_sim(tier: Tier) -> Part {
+    let (bound, cap) = match tier {
+        Tier::Quick => (3, 2_000_000),
+        Tier::Thorough => (5, 40_000_000),
+    };
+    let rule = "real Tracer + WatchpointRegistry over the simulated kernel whose threads take data breakpoints (the hardware this VM lacks): watchpoints added / removed before the first resume and at reported stops, threads created before and after; every execution with at most N deviations: at every stop each thread's DR0-3/DR7 encode exactly the registry (new threads included), a fifth / duplicate watchpoint is refused without touching any register, every hit the hardware took (per thread and register) is reported exactly once as a watchpoint stop, all-stop holds";
+    run_part("c14_sim", rule, scenarios_c14(tier), bound, cap, &|s| s.starts_with("C14") || s.starts_with("MACHINERY") || s.contains("tracer-panic") || s.contains("tracer-error") || s.contains("waits-forever"))
+}
+
+
+pub fn scenarios_c11(tier: Tier) -> Vec<Scenario> {
+    let w = |n: usize| prog_base(1) + n as u64;
+    let m = |n: usize| prog_base(0) + n as u64;
+    let mk = |name: &str, progs: Vec<Vec<Insn>>, bps: Vec<u64>, at: usize, ops: Vec<(usize, WOp)>| Scenario { name: name.into(), progs, bps, temp_bp: None, env_signals: vec![], step_code: 1, policy: 0, stepi_after_stop: 0, watch_ops: ops, detach_at: Some(at), attached: true, silent_exit: false };
+    let mut v = vec![];
+    // detach at the first / second stop with two workers racing to a shared breakpoint
+    for at in 1..=2 {
+        v.push(mk(&format!("two-workers-shared-bp-detach-at-{at}"), vec![vec![Spawn(1), Spawn(1), Join, Exit(0)], vec![Nop, Nop, Nop, Exit(0)]], vec![w(1)], at, vec![]));
+    }
+    // a thread is created around the detach
+    v.push(mk("spawn-around-detach", vec![vec![Spawn(1), Nop, Spawn(1), Join, Exit(0)], vec![Nop, Nop, Exit(0)]], vec![m(1), w(1)], 1, vec![]));
+    v.push(mk("spawn-around-detach-at-2", vec![vec![Spawn(1), Nop, Spawn(1), Join, Exit(0)], vec![Nop, Nop, Exit(0)]], vec![m(1), w(1)], 2, vec![]));
+    // a watchpoint is set: no debug register may stay enabled
+    v.push(mk("watch-then-detach", vec![vec![Spawn(1), Nop, Write(0), Join, Exit(0)], vec![Nop, Write(0), Exit(0)]], vec![m(1)], 1, vec![(0, WOp::Add { cell: 0, off: 0, size: 8, rw: false })]));
+    if tier == Tier::Thorough {
+        v.push(mk("adjacent-bps-detach-at-3", vec![vec![Spawn(1), Spawn(1), Join, Exit(0)], vec![Nop, Nop, Nop, Exit(0)]], vec![w(1), w(2)], 3, vec![]));
+        v.push(mk("exit-storm-detach", vec![vec![Spawn(2), Spawn(1), Spawn(2), Join, Exit(0)], vec![Nop, Nop, Exit(0)], vec![Exit(0)]], vec![w(1)], 1, vec![]));
+    }
+    let base = v.clone();
+    for s in &base {
+        let mut t = s.clone();
+        t.policy = 1;
+        t.name = format!("{}/highest-first", s.name);
+        v.push(t);
+        let mut t = s.clone();
+        t.attached = false;
+        t.name = format!("{}/launched", s.name);
+        v.push(t);
+    }
+    v
+}
+
+pub fn part_c11_sim(tier: Tier) -> Part {
+    let (bound, cap) = match tier {
+        Tier::Quick => (3, 2_000_000),
+        Tier::Thorough => (5, 40_000_000),
+    };
+    let rule = "real Tracer over the simulated kernel; at a chosen reported stop the user detaches (Debugger::detach restated: disable breakpoints, clear watchpoints, PTRACE_DETACH every known thread) and the released process runs on without a tracer: it must not be killed by a trap the tracer left behind, no thread may stay traced or stopped, the text is original, no debug register stays enabled, every thread finishes and executed each instruction exactly once; every execution with at most N deviations";
+    run_part("c11_sim", rule, scenarios_c11(tier), bound, cap, &|s| s.starts_with("C11") || s.starts_with("MACHINERY") || s.contains("tracer-panic") || s.contains("tracer-error") || s.contains("waits-forever"))
 }
